@@ -101,14 +101,14 @@ Fixpoint growth (fuel : nat) (rq : req) (md : nat) (partial : bool) (ntypes heig
 Definition eff_depth (rq : req) (arg : option nat) : nat :=
   match arg with Some (S m) => S m | _ => max_depth rq end.
 
-(* one iteration of the while loop: a root and, if requirements.max_depth > 1, its growth;
+(* one iteration of the while loop: a root and, if the effective max_depth md > 1, its growth;
    None = the node factory gave no root *)
 Definition attempt (rq : req) (md : nat) (partial : bool) (ntypes : nat) (cs : list nat) : res (option tree) :=
   let '(c, cs1) := draw cs in
   match get_node partial ntypes c with
   | None => Ok None
   | Some nm =>
-      if 1 <? max_depth rq then
+      if 1 <? md then
         match growth (S md) rq md partial ntypes 0 cs1 with
         | Ok (kids, _) => Ok (Some (T nm kids))
         | Raise e => Raise e
@@ -142,10 +142,8 @@ Definition random_graph (V : tree -> bool) (rq : req) (arg : option nat) (partia
 
 Definition MAX_GRAPH_GEN_ATTEMPTS : nat := 1000.
 
-(* the depth bound the code guarantees (see docs/C20.md: the growth test uses
-   requirements.max_depth, the height test the override argument) *)
-Definition depth_bound (rq : req) (arg : option nat) : nat :=
-  if 1 <? max_depth rq then Nat.max (eff_depth rq arg) 2 else 1.
+(* the depth bound: the effective max_depth (a single node has depth 1 also when that is 0) *)
+Definition depth_bound (rq : req) (arg : option nat) : nat := Nat.max (eff_depth rq arg) 1.
 
 (* ------------------------------------------------------------------ InitialPopulationGenerator *)
 Section Population.
@@ -254,7 +252,7 @@ Fixpoint infer_kids (fuel : nat) (rq : req) (md height : nat) (kids : list tree)
                             else []) kids)
   end.
 Definition infer (rq : req) (md : nat) (t : tree) : list nat :=
-  tname t :: (if 1 <? max_depth rq then infer_kids (S (tdepth t)) rq md 0 (tkids t) else []).
+  tname t :: (if 1 <? md then infer_kids (S (tdepth t)) rq md 0 (tkids t) else []).
 
 Fixpoint all2 {A B} (p : A -> B -> bool) (l : list A) (r : list B) : bool :=
   match l, r with
